@@ -33,6 +33,7 @@ fn main() {
         Some("cexecdrop") => m_cexec::run_drop(),
         Some("cexecre") => m_cexec::run_resched(),
         Some("streams") => m_cexec::run_streams(),
+        Some("streamq") => m_cexec::run_streamq_cases(),
         Some("crun") => m_crun::run(),
         Some("crunw") => m_crun::run_wake(),
         Some("cchan") => m_cchan::run(),
